@@ -1178,6 +1178,7 @@ func (f *Frame) havocLoc(e *CExpr, env *Env, post *State) {
 				return
 			case "mapof":
 				v := f.evalC(e.Args[0], env)
+				f.assumeAllocated(v)
 				mk := f.mapInfo(v.T)
 				d := post.Get(mk.dom, mk.domS)
 				post.Set(mk.dom, mk.domS, f.E.name(Store(d, v.X, f.fresh("hv$dom", ArrayS(mk.ksort, BoolS))), f.prefix+"hv$"+mk.dom))
